@@ -672,9 +672,14 @@ class Interp:
         body_pred = z3.substitute(predz, (j, jj))
         body_v = z3.substitute(vz, (j, jj))
         ax = z3.ForAll([jj], z3.Implies(z3.And(jj >= 0, jj < s.n, body_pred),
-                                        z3.Select(r.arr, SumI(cntarr, z3.IntVal(0), jj)) == body_v),
-                       patterns=[SumI(cntarr, z3.IntVal(0), jj)])
+                                        z3.Select(r.arr, SumI(cntarr, z3.IntVal(0), jj)) == body_v))
         self.pc.append(ax)
+        # onto: every element of the filtered list comes from a position that satisfies the predicate
+        kk = z3.Int('k!f')
+        onto = z3.ForAll([kk], z3.Implies(z3.And(kk >= 0, kk < r.n),
+                                          z3.Exists([jj], z3.And(jj >= 0, jj < s.n, body_pred, z3.Select(r.arr, kk) == body_v))))
+        self.pc.append(onto)
+        self.trusted_used.add('[x for x in s if P(x)]: filter (length = count of P, order kept, every element comes from s)')
         self.filters.append((r, s, cntarr))
         return r
 
@@ -1142,6 +1147,12 @@ class Interp:
             fr.fi._loop_table = table
         return table[id(node)]
 
+    def enclosing_loops(self, fr, lineno):
+        """ordinals of the loops of the current function that contain the given source line (outermost first)"""
+        loops = [n for n in ast.walk(fr.fi.node) if isinstance(n, (ast.For, ast.While))]
+        loops.sort(key=lambda n: (n.lineno, n.col_offset))
+        return [i for i, n in enumerate(loops) if n.lineno <= lineno <= n.end_lineno]
+
     def loop_spec(self, node, fr):
         o = self.loop_ordinal(node, fr)
         return o, (self.loops.get(fr.fi.key) or {}).get(o)
@@ -1363,6 +1374,7 @@ class Interp:
     lemmas_used = set()
     last_top_env = {}
     ghost_frames = []
+    cur_top_contract_key = None
     effects = []
 
     def assume_invariants(self, spec, fr):
